@@ -6,7 +6,7 @@
    per-attempt answers of the environment (unreachable / reachable+hooks accept / hook rejects). *)
 From Coq Require Import Strings.String Strings.Byte.
 From Coq Require Import List Arith NArith ZArith Bool Lia.
-From Verif Require Import Model.Redial Proofs.RedialProofs Proofs.RedialLiveProofs.
+From Verif Require Import Model.Redial Proofs.RedialProofs Proofs.RedialLiveProofs Proofs.RedialReaderProofs.
 Import ListNotations.
 
 (* Calls in flight at the loss complete with connection-closed: when the disconnecting
@@ -170,6 +170,15 @@ Theorem C13_later_call_fails_after_one_round : forall n uid p d s b,
   lock s' = None /\ notified s' = notified s /\ index s' = index s.
 Proof. exact later_call_fails_lemma. Qed.
 Print Assumptions C13_later_call_fails_after_one_round.
+
+(* Every successful redial starts a read loop on the new connection, unconditionally: the
+   number of read loops ever started is 1 (first dial) + the number of successful redials.
+   (In the code this is AnywayGo, which waits for a slot of the goroutine pool; a start that
+   can be dropped when the pool is full breaks it - harness: pool saturated at redial time.) *)
+Theorem C13_successful_redial_starts_reader : forall n uid p d s,
+  reachable n uid p d s -> length (readers s) = S (okrounds s).
+Proof. exact readers_count_lemma. Qed.
+Print Assumptions C13_successful_redial_starts_reader.
 
 (* Non-vacuity: a plain loss followed by a reader-triggered redial on the second attempt. *)
 Example C13_example :
